@@ -1,11 +1,17 @@
 /-
   C17 — URL normalisation yields clean, stable percent-encoding.
 
-  Property theorems only (helper lemmas are private and local to the statements they serve).
+  Property theorems and their helper lemmas.
   All statements quantify over every byte string (`∀ b ∈ bs, b < 256`), every safe set
-  `S : Nat → Bool` and, where relevant, both keep-escaped modes.
+  `S : Nat → Bool` and, where relevant, both keep-escaped modes; no size bounds.
+
+  Property theorems: `encode_alphabet`, `encode_ascii`, `encodeIdx_total`, `keep_decode`,
+  `keep_preserves`, `keep_tokens`, `keep_idempotent`, `EncK_iff_fixed`, `nokeep_roundtrip`,
+  `asciiset_spec`, `setFrom_spec`, `gen_asciiNew`, `gen_digits`, `default_set_exact`,
+  `default_set_excludes`, `default_no_pct`, `encode_default_visible`.
 -/
 import MdIt.Model.Url
+import MdIt.Gen.Consts
 
 namespace MdIt.Url
 
@@ -17,6 +23,8 @@ inductive Enc (S : Nat → Bool) : List Nat → Prop
       Enc S (37 :: x :: y :: l)
 
 def Bytes (bs : List Nat) : Prop := ∀ b ∈ bs, b < 256
+
+instance (bs : List Nat) : Decidable (Bytes bs) := by unfold Bytes; infer_instance
 
 theorem isHex_lt (b : Nat) (h : isHex b = true) : b < 128 := by
   simp [isHex] at h; omega
@@ -93,5 +101,582 @@ theorem Enc.chars {S : Nat → Bool} {l : List Nat} (h : Enc S l) :
 theorem encode_ascii (S : Nat → Bool) (keep : Bool) (bs : List Nat) (hbs : Bytes bs) :
     ∀ b ∈ encodeL S keep bs, b < 128 :=
   (encode_alphabet S keep bs hbs).ascii
+
+/-! ## unfolding lemmas and the token induction principle -/
+
+/-- "the list starts with two hex digits" — what a `%` must be followed by to be an escape -/
+def startsHex2 : List Nat → Bool
+  | a :: b :: _ => isHex a && isHex b
+  | _ => false
+
+theorem encodeL_nokeep_cons (S : Nat → Bool) (b : Nat) (l : List Nat) :
+    encodeL S false (b :: l) = encByte S b ++ encodeL S false l := by
+  match l with
+  | [] => simp [encodeL]
+  | [x] => simp [encodeL]
+  | x :: y :: r => simp [encodeL]
+
+theorem encodeL_keep_esc (S : Nat → Bool) (x y : Nat) (r : List Nat)
+    (hx : isHex x = true) (hy : isHex y = true) :
+    encodeL S true (37 :: x :: y :: r) = 37 :: x :: y :: encodeL S true r := by
+  simp [encodeL, hx, hy]
+
+theorem encodeL_keep_plain (S : Nat → Bool) (b : Nat) (l : List Nat)
+    (h : ¬ (b = 37 ∧ startsHex2 l = true)) :
+    encodeL S true (b :: l) = encByte S b ++ encodeL S true l := by
+  match l with
+  | [] => simp [encodeL]
+  | [x] => simp [encodeL]
+  | x :: y :: r =>
+    simp [startsHex2] at h
+    rw [encodeL]
+    split
+    · rename_i h'; simp at h'; grind
+    · rfl
+
+/-- Induction along the left-to-right scan shared by the Rust loop (keep-escaped mode), `encodeL S true`
+    and `pctDecode`: a list is empty, starts with a valid escape, or starts with a byte that is
+    not the `%` of a valid escape. -/
+theorem tok_induction {P : List Nat → Prop} (nil : P [])
+    (esc : ∀ x y r, isHex x = true → isHex y = true → P r → P (37 :: x :: y :: r))
+    (lit : ∀ b r, ¬ (b = 37 ∧ startsHex2 r = true) → P r → P (b :: r)) :
+    ∀ l, P l := by
+  have key : ∀ n (l : List Nat), l.length ≤ n → P l := by
+    intro n
+    induction n with
+    | zero => intro l h; match l, h with | [], _ => exact nil
+    | succ n ih =>
+      intro l h
+      match l with
+      | [] => exact nil
+      | b :: r =>
+        by_cases hc : b = 37 ∧ startsHex2 r = true
+        · obtain ⟨rfl, hs⟩ := hc
+          match r, hs with
+          | x :: y :: r', hs =>
+            simp [startsHex2] at hs
+            exact esc x y r' hs.1 hs.2 (ih r' (by simp at h; omega))
+        · exact lit b r hc (ih r (by simp at h; omega))
+  exact fun l => key l.length l (Nat.le_refl _)
+
+/-! ## the index loop (`encodeIdx`) never panics and equals the list model -/
+
+theorem rd_at0 (pre : List Nat) (b : Nat) (r : List Nat) :
+    rd (pre ++ b :: r).toArray pre.length = .ok b := by
+  simp [rd]
+
+theorem rd_at1 (pre : List Nat) (b x : Nat) (r : List Nat) :
+    rd (pre ++ b :: x :: r).toArray (pre.length + 1) = .ok x := by
+  simp [rd]
+
+theorem rd_at2 (pre : List Nat) (b x y : Nat) (r : List Nat) :
+    rd (pre ++ b :: x :: y :: r).toArray (pre.length + 2) = .ok y := by
+  simp [rd]
+
+theorem digit?_eq (n : Nat) (h : n < 16) : digit? n = some (digit n) := by
+  unfold digit? digit; split <;> simp <;> omega
+
+/-- one iteration at a valid escape: needs `i + 2 < len`, reads `bytes[i+1]`, `bytes[i+2]` in range -/
+theorem encodeStep_esc (S : Nat → Bool) (pre : List Nat) (x y : Nat) (r : List Nat)
+    (hx : isHex x = true) (hy : isHex y = true) :
+    encodeStep S true (pre ++ 37 :: x :: y :: r).toArray pre.length = .ok ([37, x, y], true) := by
+  simp [encodeStep, rd_at0, rd_at1, rd_at2, hx, hy]
+
+/-- one iteration anywhere else — including `%` as last or second-to-last byte, where the guard
+    `i + 2 < len` fails and nothing beyond `bytes[i]` is read; `DIGITS[..]` is in range for `b < 256` -/
+theorem encodeStep_plain (S : Nat → Bool) (keep : Bool) (pre : List Nat) (b : Nat) (r : List Nat)
+    (hb : b < 256) (h : keep = false ∨ ¬ (b = 37 ∧ startsHex2 r = true)) :
+    encodeStep S keep (pre ++ b :: r).toArray pre.length = .ok (encByte S b, false) := by
+  have d1 := digit?_eq (b / 16) (by omega)
+  have d2 := digit?_eq (b % 16) (by omega)
+  match r with
+  | [] => simp [encodeStep, rd_at0, d1, d2, encByte]; split <;> rfl
+  | [x] => simp [encodeStep, rd_at0, d1, d2, encByte]; split <;> rfl
+  | x :: y :: r' =>
+    simp [startsHex2] at h
+    simp [encodeStep, rd_at0, rd_at1, rd_at2, d1, d2, encByte]
+    grind
+
+theorem encodeLoop_done (S : Nat → Bool) (keep : Bool) (a : Array Nat) (i : Nat) (acc : List Nat)
+    (h : ¬ i < a.size) : encodeLoop S keep a i acc = .ok acc := by
+  rw [encodeLoop]; simp [h]
+
+theorem encodeLoop_step1 (S : Nat → Bool) (keep : Bool) (a : Array Nat) (i : Nat)
+    (acc out : List Nat) (h : i < a.size) (hs : encodeStep S keep a i = .ok (out, false)) :
+    encodeLoop S keep a i acc = encodeLoop S keep a (i + 1) (acc ++ out) := by
+  rw [encodeLoop]; simp [h, hs]
+
+theorem encodeLoop_step3 (S : Nat → Bool) (keep : Bool) (a : Array Nat) (i : Nat)
+    (acc out : List Nat) (h : i < a.size) (hs : encodeStep S keep a i = .ok (out, true)) :
+    encodeLoop S keep a i acc = encodeLoop S keep a (i + 3) (acc ++ out) := by
+  rw [encodeLoop]; simp [h, hs]
+
+/-- loop invariant: at every token-aligned split `bs = pre ++ suf`, running the loop from
+    `i = pre.length` with accumulator `acc` ends without panic in `acc ++ encodeL suf` -/
+theorem encodeLoop_spec (S : Nat → Bool) (keep : Bool) (suf : List Nat) :
+    ∀ (pre acc : List Nat), Bytes suf →
+      encodeLoop S keep (pre ++ suf).toArray pre.length acc = .ok (acc ++ encodeL S keep suf) := by
+  cases keep with
+  | false =>
+    induction suf with
+    | nil => intro pre acc _; rw [encodeLoop_done] <;> simp [encodeL]
+    | cons b r ih =>
+      intro pre acc hb
+      rw [encodeLoop_step1 _ _ _ _ _ _ (by simp)
+        (encodeStep_plain S false pre b r (hb b (by simp)) (Or.inl rfl))]
+      have := ih (pre ++ [b]) (acc ++ encByte S b) (fun c hc => hb c (by simp [hc]))
+      simp at this
+      rw [this, encodeL_nokeep_cons]
+  | true =>
+    induction suf using tok_induction with
+    | nil => intro pre acc _; rw [encodeLoop_done] <;> simp [encodeL]
+    | esc x y r hx hy ih =>
+      intro pre acc hb
+      rw [encodeLoop_step3 _ _ _ _ _ _ (by simp) (encodeStep_esc S pre x y r hx hy)]
+      have := ih (pre ++ [37, x, y]) (acc ++ [37, x, y]) (fun c hc => hb c (by simp [hc]))
+      simp at this
+      rw [this, encodeL_keep_esc _ _ _ _ hx hy]
+    | lit b r h ih =>
+      intro pre acc hb
+      rw [encodeLoop_step1 _ _ _ _ _ _ (by simp)
+        (encodeStep_plain S true pre b r (hb b (by simp)) (Or.inr h))]
+      have := ih (pre ++ [b]) (acc ++ encByte S b) (fun c hc => hb c (by simp [hc]))
+      simp at this
+      rw [this, encodeL_keep_plain _ _ _ h]
+
+/-- **C17 (totality).** The index loop as written in Rust (partial reads `bytes[i]`, `bytes[i+1]`,
+    `bytes[i+2]`, `DIGITS[..]`, final `from_utf8().unwrap()`) never panics and computes `encodeL`. -/
+theorem encodeIdx_total (S : Nat → Bool) (keep : Bool) (bs : List Nat) (hbs : Bytes bs) :
+    encodeIdx S keep bs = .ok (encodeL S keep bs) := by
+  have h := encodeLoop_spec S keep bs [] [] hbs
+  simp at h
+  simp only [encodeIdx, h]
+  rw [if_pos]
+  simpa using encode_ascii S keep bs hbs
+
+/-! ## pctDecode -/
+
+theorem isHex_37 : isHex 37 = false := by decide
+
+theorem pctDecode_esc (x y : Nat) (r : List Nat) (hx : isHex x = true) (hy : isHex y = true) :
+    pctDecode (37 :: x :: y :: r) = (hexVal x * 16 + hexVal y) :: pctDecode r := by
+  simp [pctDecode, hx, hy]
+
+theorem pctDecode_plain (b : Nat) (l : List Nat) (h : ¬ (b = 37 ∧ startsHex2 l = true)) :
+    pctDecode (b :: l) = b :: pctDecode l := by
+  match l with
+  | [] => simp [pctDecode]
+  | [x] => simp [pctDecode]
+  | x :: y :: r =>
+    simp [startsHex2] at h
+    rw [pctDecode]
+    split
+    · rename_i h'; simp at h'; grind
+    · rfl
+
+theorem hexVal_digit (n : Nat) (h : n < 16) : hexVal (digit n) = n := by
+  revert n h; decide
+
+theorem pctDecode_encByte_enc (S : Nat → Bool) (b : Nat) (l : List Nat) (hb : b < 256)
+    (h : shouldEncode S b = true) : pctDecode (encByte S b ++ l) = b :: pctDecode l := by
+  simp only [encByte, h, if_true]
+  show pctDecode (37 :: digit (b / 16) :: digit (b % 16) :: l) = _
+  rw [pctDecode_esc _ _ _ (digit_isHex _ (by omega)) (digit_isHex _ (by omega)),
+    hexVal_digit _ (by omega), hexVal_digit _ (by omega)]
+  congr 1; omega
+
+theorem encByte_cases (S : Nat → Bool) (b : Nat) :
+    (shouldEncode S b = true ∧ encByte S b = [37, digit (b / 16), digit (b % 16)]) ∨
+    (shouldEncode S b = false ∧ b < 128 ∧ S b = true ∧ encByte S b = [b]) := by
+  unfold encByte
+  cases h : shouldEncode S b
+  · simp [shouldEncode] at h; simp [h]
+  · simp
+
+/-- the output on `b :: r` starts with `b` itself or with `%` -/
+theorem encodeL_head (S : Nat → Bool) (b : Nat) (r : List Nat) :
+    ∃ t, encodeL S true (b :: r) = b :: t ∨ encodeL S true (b :: r) = 37 :: t := by
+  by_cases hc : b = 37 ∧ startsHex2 r = true
+  · obtain ⟨rfl, hs⟩ := hc
+    match r, hs with
+    | x :: y :: r', hs =>
+      simp [startsHex2] at hs
+      exact ⟨_, Or.inl (encodeL_keep_esc S x y r' hs.1 hs.2)⟩
+  · rw [encodeL_keep_plain S b r hc]
+    rcases encByte_cases S b with ⟨_, h⟩ | ⟨_, _, _, h⟩ <;> rw [h]
+    · exact ⟨_, Or.inr rfl⟩
+    · exact ⟨_, Or.inl rfl⟩
+
+/-- the encoder never *creates* a "two hex digits" prefix -/
+theorem startsHex2_encodeL (S : Nat → Bool) (l : List Nat)
+    (h : startsHex2 (encodeL S true l) = true) : startsHex2 l = true := by
+  match l with
+  | [] => simp [encodeL, startsHex2] at h
+  | b :: r =>
+    by_cases hc : b = 37 ∧ startsHex2 r = true
+    · obtain ⟨rfl, hs⟩ := hc
+      match r, hs with
+      | x :: y :: r', hs =>
+        simp [startsHex2] at hs
+        rw [encodeL_keep_esc S x y r' hs.1 hs.2] at h
+        simp [startsHex2, isHex_37] at h
+    · rw [encodeL_keep_plain S b r hc] at h
+      rcases encByte_cases S b with ⟨_, hb⟩ | ⟨_, _, _, hb⟩ <;> rw [hb] at h
+      · simp [startsHex2, isHex_37] at h
+      · match r with
+        | [] => simp [encodeL, startsHex2] at h
+        | c :: r' =>
+          obtain ⟨t, ht | ht⟩ := encodeL_head S c r' <;> rw [ht] at h <;>
+            simp [startsHex2, isHex_37] at h
+          simpa [startsHex2] using h
+
+/-- **C17 (keep-escaped, decoding).** Decoding the output equals decoding the input. -/
+theorem keep_decode (S : Nat → Bool) (bs : List Nat) (hbs : Bytes bs) :
+    pctDecode (encodeL S true bs) = pctDecode bs := by
+  induction bs using tok_induction with
+  | nil => simp [encodeL]
+  | esc x y r hx hy ih =>
+    rw [encodeL_keep_esc S x y r hx hy, pctDecode_esc _ _ _ hx hy, pctDecode_esc _ _ _ hx hy,
+      ih (fun c hc => hbs c (by simp [hc]))]
+  | lit b r h ih =>
+    have ih := ih (fun c hc => hbs c (by simp [hc]))
+    rw [encodeL_keep_plain S b r h, pctDecode_plain b r h]
+    rcases encByte_cases S b with ⟨hs, _⟩ | ⟨_, _, _, hb⟩
+    · rw [pctDecode_encByte_enc S b _ (hbs b (by simp)) hs, ih]
+    · rw [hb]
+      show pctDecode (b :: encodeL S true r) = _
+      rw [pctDecode_plain b _ (fun hh => h ⟨hh.1, startsHex2_encodeL S r hh.2⟩), ih]
+
+theorem startsHex2_append_pct (r t : List Nat) : startsHex2 (r ++ 37 :: t) = startsHex2 r := by
+  match r with
+  | [] => cases t <;> simp [startsHex2, isHex_37]
+  | [a] => simp [startsHex2, isHex_37]
+  | a :: b :: r' => simp [startsHex2]
+
+/-- **C17 (keep-escaped, in place).** Every valid escape `%xy` of the input — wherever it
+    occurs — is emitted verbatim, and the text before / after it is encoded independently.
+    (Holds for *every* prefix `a`, also one ending in `%` or `%h`: such a `%` would need two hex
+    digits after it, and the `%` of the escape (37) is not a hex digit, so no escape of
+    `a ++ …` straddles the boundary and none of `a` changes status — `startsHex2_append_pct`.) -/
+theorem keep_preserves (S : Nat → Bool) (a b : List Nat) (x y : Nat)
+    (hx : isHex x = true) (hy : isHex y = true) :
+    encodeL S true (a ++ 37 :: x :: y :: b) =
+      encodeL S true a ++ 37 :: x :: y :: encodeL S true b := by
+  induction a using tok_induction with
+  | nil => simp [encodeL, encodeL_keep_esc S x y b hx hy]
+  | esc x' y' r hx' hy' ih =>
+    show encodeL S true (37 :: x' :: y' :: (r ++ 37 :: x :: y :: b)) = _
+    rw [encodeL_keep_esc S x' y' _ hx' hy', encodeL_keep_esc S x' y' _ hx' hy', ih]; rfl
+  | lit c r h ih =>
+    show encodeL S true (c :: (r ++ 37 :: x :: y :: b)) = _
+    rw [encodeL_keep_plain S c _ (by rw [startsHex2_append_pct]; exact h),
+      encodeL_keep_plain S c r h, ih, List.append_assoc]
+
+/-- **C17 (idempotence).** Re-encoding an encoded string (keep-escaped mode) changes nothing.
+    Direct proof along the scan; the refined-language version is `encode_EncK` + `fix_on_EncK` below. -/
+theorem keep_idempotent (S : Nat → Bool) (bs : List Nat) (hbs : Bytes bs) :
+    encodeL S true (encodeL S true bs) = encodeL S true bs := by
+  induction bs using tok_induction with
+  | nil => simp [encodeL]
+  | esc x y r hx hy ih =>
+    rw [encodeL_keep_esc S x y r hx hy, encodeL_keep_esc S x y _ hx hy,
+      ih (fun c hc => hbs c (by simp [hc]))]
+  | lit b r h ih =>
+    have ih := ih (fun c hc => hbs c (by simp [hc]))
+    have hb := hbs b (by simp)
+    rw [encodeL_keep_plain S b r h]
+    rcases encByte_cases S b with ⟨_, he⟩ | ⟨hs, _, _, he⟩
+    · rw [he]
+      show encodeL S true (37 :: digit (b / 16) :: digit (b % 16) :: encodeL S true r) = _
+      rw [encodeL_keep_esc S _ _ _ (digit_isHex _ (by omega)) (digit_isHex _ (by omega)), ih]; rfl
+    · rw [he]
+      show encodeL S true (b :: encodeL S true r) = _
+      rw [encodeL_keep_plain S b _ (fun hh => h ⟨hh.1, startsHex2_encodeL S r hh.2⟩), he, ih]
+
+/-- **C17 (no-keep round trip).** With `%` outside the safe set, decoding the `keep_escaped = false`
+    encoding gives back the input bytes. -/
+theorem nokeep_roundtrip (S : Nat → Bool) (hS : S 37 = false) (bs : List Nat) (hbs : Bytes bs) :
+    pctDecode (encodeL S false bs) = bs := by
+  induction bs with
+  | nil => simp [encodeL, pctDecode]
+  | cons b r ih =>
+    have ih := ih (fun c hc => hbs c (by simp [hc]))
+    rw [encodeL_nokeep_cons]
+    rcases encByte_cases S b with ⟨hs, _⟩ | ⟨_, _, hSb, he⟩
+    · rw [pctDecode_encByte_enc S b _ (hbs b (by simp)) hs, ih]
+    · rw [he]
+      show pctDecode (b :: encodeL S false r) = _
+      rw [pctDecode_plain b _ (fun hh => by rw [hh.1, hS] at hSb; cases hSb), ih]
+
+/-- the hypothesis `S 37 = false` of `nokeep_roundtrip` is forced: with `%` in the safe set,
+    `"%41"` is kept literally and decodes to `"A"`. -/
+example : pctDecode (encodeL (fun _ => true) false [37, 52, 49]) ≠ [37, 52, 49] := by
+  simp [encodeL, encByte, shouldEncode, pctDecode, isHex, hexVal]
+
+/-! ## refined language / fixed points -/
+
+/-- `Enc S` in which a literal `%` is never followed by two hex digits. -/
+inductive EncK (S : Nat → Bool) : List Nat → Prop
+  | nil : EncK S []
+  | lit (b : Nat) (l : List Nat) : b < 128 → S b = true → ¬ (b = 37 ∧ startsHex2 l = true) →
+      EncK S l → EncK S (b :: l)
+  | esc (x y : Nat) (l : List Nat) : isHex x = true → isHex y = true → EncK S l →
+      EncK S (37 :: x :: y :: l)
+
+theorem EncK.toEnc {S : Nat → Bool} {l : List Nat} (h : EncK S l) : Enc S l := by
+  induction h with
+  | nil => exact Enc.nil
+  | lit b l h1 h2 _ _ ih => exact Enc.lit b l h1 h2 ih
+  | esc x y l h1 h2 _ ih => exact Enc.esc x y l h1 h2 ih
+
+theorem encode_EncK (S : Nat → Bool) (bs : List Nat) (hbs : Bytes bs) :
+    EncK S (encodeL S true bs) := by
+  induction bs using tok_induction with
+  | nil => simp [encodeL]; exact EncK.nil
+  | esc x y r hx hy ih =>
+    rw [encodeL_keep_esc S x y r hx hy]
+    exact EncK.esc x y _ hx hy (ih (fun c hc => hbs c (by simp [hc])))
+  | lit b r h ih =>
+    have ih := ih (fun c hc => hbs c (by simp [hc]))
+    have hb := hbs b (by simp)
+    rw [encodeL_keep_plain S b r h]
+    rcases encByte_cases S b with ⟨_, he⟩ | ⟨_, hlt, hS, he⟩ <;> rw [he]
+    · exact EncK.esc _ _ _ (digit_isHex _ (by omega)) (digit_isHex _ (by omega)) ih
+    · exact EncK.lit b _ hlt hS (fun hh => h ⟨hh.1, startsHex2_encodeL S r hh.2⟩) ih
+
+theorem fix_on_EncK {S : Nat → Bool} {l : List Nat} (h : EncK S l) : encodeL S true l = l := by
+  induction h with
+  | nil => simp [encodeL]
+  | lit b l h1 h2 h3 _ ih =>
+    rw [encodeL_keep_plain S b l h3, ih]
+    rcases encByte_cases S b with ⟨hs, _⟩ | ⟨_, _, _, he⟩
+    · simp [shouldEncode, h2] at hs; omega
+    · rw [he]; rfl
+  | esc x y l h1 h2 _ ih => rw [encodeL_keep_esc S x y l h1 h2, ih]
+
+theorem EncK.bytes {S : Nat → Bool} {l : List Nat} (h : EncK S l) : Bytes l :=
+  fun b hb => Nat.lt_trans (h.toEnc.ascii b hb) (by decide)
+
+/-- the image of `encode(·, S, true)` is exactly its set of fixed points, and exactly `EncK S` -/
+theorem EncK_iff_fixed (S : Nat → Bool) (l : List Nat) :
+    EncK S l ↔ (Bytes l ∧ encodeL S true l = l) :=
+  ⟨fun h => ⟨h.bytes, fix_on_EncK h⟩, fun ⟨hb, he⟩ => he ▸ encode_EncK S l hb⟩
+
+/-! ## tokenisation view -/
+
+inductive Tok where
+  | esc (x y : Nat)
+  | byte (b : Nat)
+
+/-- left-to-right tokenisation, exactly as `pctDecode` (and the Rust loop) scans -/
+def tokenize : List Nat → List Tok
+  | [] => []
+  | [b] => [.byte b]
+  | [b, x] => .byte b :: tokenize [x]
+  | b :: x :: y :: r =>
+    if b == 37 && isHex x && isHex y then .esc x y :: tokenize r
+    else .byte b :: tokenize (x :: y :: r)
+termination_by l => l.length
+
+def Tok.raw : Tok → List Nat
+  | .esc x y => [37, x, y]
+  | .byte b => [b]
+
+def Tok.val : Tok → Nat
+  | .esc x y => hexVal x * 16 + hexVal y
+  | .byte b => b
+
+def Tok.emit (S : Nat → Bool) : Tok → List Nat
+  | .esc x y => [37, x, y]
+  | .byte b => encByte S b
+
+theorem tokenize_esc (x y : Nat) (r : List Nat) (hx : isHex x = true) (hy : isHex y = true) :
+    tokenize (37 :: x :: y :: r) = .esc x y :: tokenize r := by
+  simp [tokenize, hx, hy]
+
+theorem tokenize_plain (b : Nat) (l : List Nat) (h : ¬ (b = 37 ∧ startsHex2 l = true)) :
+    tokenize (b :: l) = .byte b :: tokenize l := by
+  match l with
+  | [] => simp [tokenize]
+  | [x] => simp [tokenize]
+  | x :: y :: r =>
+    simp [startsHex2] at h
+    rw [tokenize]
+    split
+    · rename_i h'; simp at h'; grind
+    · rfl
+
+/-- the tokens partition the input -/
+theorem tokenize_raw (bs : List Nat) : (tokenize bs).flatMap Tok.raw = bs := by
+  induction bs using tok_induction with
+  | nil => simp [tokenize]
+  | esc x y r hx hy ih => simp [tokenize_esc x y r hx hy, Tok.raw, ih]
+  | lit b r h ih => simp [tokenize_plain b r h, Tok.raw, ih]
+
+theorem pctDecode_tokens (bs : List Nat) : pctDecode bs = (tokenize bs).map Tok.val := by
+  induction bs using tok_induction with
+  | nil => simp [tokenize, pctDecode]
+  | esc x y r hx hy ih => simp [tokenize_esc x y r hx hy, pctDecode_esc x y r hx hy, Tok.val, ih]
+  | lit b r h ih => simp [tokenize_plain b r h, pctDecode_plain b r h, Tok.val, ih]
+
+/-- **C17 (keep-escaped, token view).** The output is the concatenation, token by token, of: the
+    escape itself for every valid `%XX` of the input, `encByte` of every other byte. -/
+theorem keep_tokens (S : Nat → Bool) (bs : List Nat) :
+    encodeL S true bs = (tokenize bs).flatMap (Tok.emit S) := by
+  induction bs using tok_induction with
+  | nil => simp [tokenize, encodeL]
+  | esc x y r hx hy ih => simp [tokenize_esc x y r hx hy, encodeL_keep_esc S x y r hx hy, Tok.emit, ih]
+  | lit b r h ih => simp [tokenize_plain b r h, encodeL_keep_plain S b r h, Tok.emit, ih]
+
+/-! ## `AsciiSet` and the shipped constants -/
+
+def isAlnum (b : Nat) : Bool :=
+  (48 ≤ b && b ≤ 57) || (65 ≤ b && b ≤ 90) || (97 ≤ b && b ≤ 122)
+
+/-- the model constants are the constants extracted from the current Rust source -/
+theorem gen_asciiNew : Gen.Consts.asciiNew = asciiNew := by decide
+
+theorem gen_digits : ∀ n < 16, Gen.Consts.digits[n]? = some (digit n) := by decide
+
+/-- `normalize_link` calls `encode(.., keep_escaped = true)` -/
+theorem gen_keep : Gen.Consts.normalizeKeepEscaped = true := rfl
+
+/-- the shipped set, checked bit by bit (the general statement is `asciiset_spec` below) -/
+theorem setFrom_spec : ∀ b < 128, setHas (setFrom Gen.Consts.safeChars) b =
+    (isAlnum b || Gen.Consts.safeChars.contains b) := by decide +kernel
+
+theorem setHas_testBit (bits b : Nat) : setHas bits b = bits.testBit b := by
+  rw [Bool.eq_iff_iff]; simp [setHas, Nat.testBit_eq_decide_div_mod_eq, Nat.shiftRight_eq_div_pow]
+
+theorem setHas_setAdd (bits c b : Nat) : setHas (setAdd bits c) b = (setHas bits b || b == c) := by
+  simp only [setHas_testBit, setAdd, Nat.testBit_or, Nat.one_shiftLeft, Nat.testBit_two_pow]
+  congr 1
+  by_cases h : b = c
+  · subst h; simp
+  · have h' : ¬ c = b := fun e => h e.symm
+    simp [h, h']
+
+/-- `AsciiSet::from(str)` is `AsciiSet::new()` plus exactly the bytes of `str` (any `str`). -/
+theorem setFrom_has (str : List Nat) (b : Nat) :
+    setHas (setFrom str) b = (setHas asciiNew b || str.contains b) := by
+  unfold setFrom
+  generalize asciiNew = bits
+  induction str generalizing bits with
+  | nil => simp
+  | cons c r ih => rw [List.foldl_cons, ih, setHas_setAdd, List.contains_cons, Bool.or_assoc]
+
+/-- `AsciiSet::new()` is exactly the ASCII letters and digits. -/
+theorem asciiNew_spec : ∀ b < 128, setHas asciiNew b = isAlnum b := by decide +kernel
+
+theorem asciiNew_high (b : Nat) (h : 128 ≤ b) : setHas asciiNew b = false := by
+  have : asciiNew < 2 ^ b :=
+    Nat.lt_of_lt_of_le (by decide : asciiNew < 2 ^ 128) (Nat.pow_le_pow_right (by decide) h)
+  simp [setHas, Nat.shiftRight_eq_div_pow, Nat.div_eq_of_lt this]
+
+/-- **C17 (`AsciiSet`).** For every string: `has (from str) b ↔ alnum b ∨ b ∈ str`.
+    (The model's bit set is an unbounded `Nat`; the Rust `u128` agrees with it for ASCII `str` and
+    `b < 128`. For a byte ≥ 128 the Rust `1 << byte` overflows the shift — a compile error in the
+    `const` the crate uses, a panic / wrap-around at run time — `encode` never calls `has` there.) -/
+theorem asciiset_spec (str : List Nat) (b : Nat) :
+    setHas (setFrom str) b = (isAlnum b || str.contains b) := by
+  rw [setFrom_has]
+  congr 1
+  by_cases h : b < 128
+  · exact asciiNew_spec b h
+  · rw [asciiNew_high b (by omega)]; simp [isAlnum]; omega
+
+/-- the safe set shipped in `normalize_link` (`parser/main.rs`), from the generated constant -/
+def defaultSafe : Nat → Bool := setHas (setFrom Gen.Consts.safeChars)
+
+/-- exact complement of the shipped set inside ASCII -/
+theorem default_set_exact : ∀ b < 128, (defaultSafe b = false ↔
+    (b ≤ 32 ∨ b = 127 ∨ b ∈ [34, 37, 60, 62, 91, 92, 93, 94, 96, 123, 124, 125])) := by
+  decide +kernel
+
+/-- controls, space, DEL, `"` `%` `<` `>` `[` `\` `]` `^` `` ` `` `{` `|` `}` are not in the shipped set -/
+theorem default_set_excludes (b : Nat)
+    (h : b ≤ 32 ∨ b = 127 ∨ b = 34 ∨ b = 37 ∨ b = 60 ∨ b = 62 ∨ b = 91 ∨ b = 92 ∨ b = 93 ∨
+      b = 94 ∨ b = 96 ∨ b = 123 ∨ b = 124 ∨ b = 125) : defaultSafe b = false := by
+  have hb : b < 128 := by omega
+  refine (default_set_exact b hb).2 ?_
+  simp only [List.mem_cons, List.not_mem_nil, or_false]
+  omega
+
+theorem default_no_pct : defaultSafe 37 = false := default_set_excludes 37 (by omega)
+
+/-- with the shipped set the result is printable ASCII without space (used by C04) -/
+theorem encode_default_visible (keep : Bool) (bs : List Nat) (hbs : Bytes bs) :
+    ∀ b ∈ encodeL defaultSafe keep bs, 32 < b ∧ b < 127 := by
+  intro b hb
+  have henc := encode_alphabet defaultSafe keep bs hbs
+  have hlt := henc.ascii b hb
+  rcases henc.chars b hb with hS | rfl | hh
+  · have := (default_set_exact b hlt).2
+    constructor
+    · apply Nat.lt_of_not_le; intro hle; rw [this (Or.inl hle)] at hS; cases hS
+    · apply Nat.lt_of_le_of_ne (by omega); intro he; rw [this (Or.inr (Or.inl he))] at hS; cases hS
+  · omega
+  · simp [isHex] at hh; omega
+
+/-! ## non-vacuity: the hypotheses are satisfiable, the statements say something on concrete inputs -/
+
+section Examples
+
+private theorem d104 : defaultSafe 104 = true := by decide +kernel
+private theorem d52 : defaultSafe 52 = true := by decide +kernel
+private theorem d49 : defaultSafe 49 = true := by decide +kernel
+private theorem d32 : defaultSafe 32 = false := by decide +kernel
+
+/-- `"h%4"`: `%` second-to-last, `"h%"`: `%` last — no out-of-range read, `%` becomes `%25` -/
+example : encodeIdx defaultSafe true [104, 37, 52] = .ok [104, 37, 50, 53, 52] := by
+  rw [encodeIdx_total _ _ _ (by decide)]
+  simp [encodeL, encByte, shouldEncode, digit, default_no_pct, d104, d52]
+
+example : encodeIdx defaultSafe true [104, 37] = .ok [104, 37, 50, 53] := by
+  rw [encodeIdx_total _ _ _ (by decide)]
+  simp [encodeL, encByte, shouldEncode, digit, default_no_pct, d104]
+
+/-- a byte ≥ 0x80 (`0xCF`) is escaped with upper-case digits, both modes -/
+example (keep : Bool) : encodeIdx defaultSafe keep [207] = .ok [37, 67, 70] := by
+  rw [encodeIdx_total _ _ _ (by decide)]
+  simp [encodeL, encByte, shouldEncode, digit]
+
+/-- `"%41%"` → `"%41%25"` (task example) -/
+example : encodeL defaultSafe true [37, 52, 49, 37] = [37, 52, 49, 37, 50, 53] := by
+  simp [encodeL, encByte, shouldEncode, isHex, digit, default_no_pct]
+
+/-- `keep_decode` on `"%41% "`: both sides are `"A% "` -/
+example : pctDecode (encodeL defaultSafe true [37, 52, 49, 37, 32]) = [65, 37, 32] := by
+  rw [keep_decode _ _ (by decide)]
+  simp [pctDecode, isHex, hexVal]
+
+/-- `keep_preserves` with a prefix ending in `%4` (the `%` does not capture anything) -/
+example : encodeL defaultSafe true ([37, 52] ++ 37 :: 52 :: 49 :: [32]) =
+    [37, 50, 53, 52] ++ 37 :: 52 :: 49 :: [37, 50, 48] := by
+  rw [keep_preserves _ _ _ _ _ (by decide) (by decide)]
+  simp [encodeL, encByte, shouldEncode, digit, default_no_pct, d52, d32]
+
+/-- `keep_idempotent` on `"%4 "`: `"%254%20"` is a fixed point -/
+example : encodeL defaultSafe true (encodeL defaultSafe true [37, 52, 32]) =
+    [37, 50, 53, 52, 37, 50, 48] := by
+  rw [keep_idempotent _ _ (by decide)]
+  simp [encodeL, encByte, shouldEncode, isHex, digit, default_no_pct, d52, d32]
+
+/-- `nokeep_roundtrip`: its hypothesis holds for the shipped set; `"%41"` → `"%2541"` → `"%41"` -/
+example : pctDecode (encodeL defaultSafe false [37, 52, 49]) = [37, 52, 49] :=
+  nokeep_roundtrip defaultSafe default_no_pct _ (by decide)
+
+example : encodeL defaultSafe false [37, 52, 49] = [37, 50, 53, 52, 49] := by
+  simp [encodeL, encByte, shouldEncode, digit, default_no_pct, d52, d49]
+
+/-- the token view of `"%4%41"` -/
+example : tokenize [37, 52, 37, 52, 49] = [.byte 37, .byte 52, .esc 52 49] := by
+  simp [tokenize, isHex]
+
+/-- `EncK` is inhabited by a non-trivial word and excludes a literal `%` before two hex digits -/
+example : EncK defaultSafe [104, 37, 52, 49] :=
+  EncK.lit 104 _ (by decide) d104 (by decide) (EncK.esc 52 49 [] (by decide) (by decide) EncK.nil)
+
+end Examples
 
 end MdIt.Url
